@@ -3,7 +3,10 @@
 Theorems: coq/theories/Props/C02.v.  Tie: the same exploration as C01 (all ground instances of every reachable state);
 the property is evaluated directly on the implementation's answers (is_applicable vs apply, get_applicable_actions vs
 the instances for which apply succeeds, is_goal vs get_unsatisfied_goals, state unchanged) and inside Coq (code bit 3),
-plus random query interleavings on ONE simulator instance compared with a fresh simulator.
+plus random query interleavings on ONE simulator instance compared with a fresh simulator, plus listing histories:
+get_applicable_actions asked in permuted state orders on a new simulator (every problem) and on every ordered pair of
+explored states of C02's own family of problems whose effects conflict only in some states (conflict_family,
+pair_histories; notes/C02.md).
 """
 import json
 
@@ -13,9 +16,207 @@ from harness.props import c01
 META = {
     "level": "proof",
     "technique": "Coq proof (is_applicable = isSome apply, applicable-actions exactness, is_goal <-> no unsatisfied goal about the model of the repaired full-check path) + direct oracle on the implementation over explored states and query interleavings",
-    "text": "The model's full-check applicability path is proved equal to 'apply returns a state' for all problems/states/actions; on the implementation the statement is checked on every explored (state, ground instance) pair, on get_applicable_actions, on goal queries and on random query interleavings of one simulator instance against fresh instances.",
+    "text": "The model's full-check applicability path is proved equal to 'apply returns a state' for all problems/states/actions; on the implementation the statement is checked on every explored (state, ground instance) pair, on get_applicable_actions, on goal queries, on random query interleavings of one simulator instance against fresh instances, and on get_applicable_actions histories (every ordered pair of states of problems with state-dependent effect conflicts; permuted state orders on every problem).",
     "note": "Purity under interleavings is trivial in the (pure) model and therefore only validated on the implementation (theorem named _partial). Same trusted base as C01.",
 }
+
+
+def conflict_family():
+    """C02's own corner problems (not shared with C01/C03/C04): actions whose effects conflict only in SOME reachable
+    states, together with actions that move between conflicting and non-conflicting states in both directions.  The
+    applicability verdict of such an action is state dependent, so nothing about it may be remembered across queries."""
+    from unified_planning.model import Fluent, Object, Problem, InstantaneousAction, Variable
+    from unified_planning.environment import Environment
+    out = []
+
+    def base(label):
+        env = Environment()
+        tm, em = env.type_manager, env.expression_manager
+        T = tm.UserType("T")
+        p = Problem(label, env)
+        o1, o2 = Object("o1", T, env), Object("o2", T, env)
+        p.add_objects([o1, o2])
+        return env, tm, em, T, p, o1, o2
+
+    def toggle(env, em, name, f):
+        a = InstantaneousAction(name, _env=env)
+        a.add_effect(f, em.Not(f))
+        return a
+
+    # 1. an unconditional assignment and a conditional one with another value: level := 1; when boost: level := 2
+    env, tm, em, T, p, o1, o2 = base("conflict-conditional-overrides-unconditional")
+    boost = Fluent("boost", tm.BoolType(), environment=env)
+    level = Fluent("level", tm.IntType(0, 5), environment=env)
+    p.add_fluent(boost, default_initial_value=True); p.add_fluent(level, default_initial_value=0)
+    a = InstantaneousAction("set_level", _env=env)
+    a.add_effect(level, 1); a.add_effect(level, 2, boost)
+    off = InstantaneousAction("boost_off", _env=env); off.add_precondition(boost); off.add_effect(boost, False)
+    on = InstantaneousAction("boost_on", _env=env); on.add_precondition(em.Not(boost)); on.add_effect(boost, True)
+    for x in (a, off, on):
+        p.add_action(x)
+    p.add_goal(em.Equals(level, 1))
+    out.append(sx.HandProblem(p, p.name))
+    # 2. two conditional assignments of different values whose conditions can both hold (and can both fail)
+    env, tm, em, T, p, o1, o2 = base("conflict-two-conditionals-both-may-hold")
+    c1 = Fluent("c1", tm.BoolType(), environment=env)
+    c2 = Fluent("c2", tm.BoolType(), environment=env)
+    x = Fluent("x", tm.IntType(0, 5), environment=env)
+    p.add_fluent(c1, default_initial_value=False); p.add_fluent(c2, default_initial_value=True); p.add_fluent(x, default_initial_value=0)
+    a = InstantaneousAction("pick", _env=env)
+    a.add_effect(x, 1, c1); a.add_effect(x, 2, c2)
+    for z in (a, toggle(env, em, "tog1", c1), toggle(env, em, "tog2", c2)):
+        p.add_action(z)
+    p.add_goal(em.Equals(x, 1))
+    out.append(sx.HandProblem(p, p.name))
+    # 3. an object fluent assigned under numeric conditions that overlap in exactly one value of the counter
+    env, tm, em, T, p, o1, o2 = base("conflict-object-fluent-numeric-conditions")
+    loc = Fluent("loc", T, environment=env)
+    n = Fluent("n", tm.IntType(0, 4), environment=env)
+    p.add_fluent(loc, default_initial_value=o1); p.add_fluent(n, default_initial_value=2)
+    a = InstantaneousAction("place", _env=env)
+    a.add_effect(loc, o1, em.LE(n, 2)); a.add_effect(loc, o2, em.LE(2, n))
+    inc = InstantaneousAction("inc", _env=env); inc.add_increase_effect(n, 1)
+    dec = InstantaneousAction("dec", _env=env); dec.add_decrease_effect(n, 1)
+    for z in (a, inc, dec):
+        p.add_action(z)
+    p.add_goal(em.Equals(loc, o2))
+    out.append(sx.HandProblem(p, p.name))
+    # 4. values read from the state: x := y; when b: x := z   (conflict iff b and y != z), and parameterised targets that
+    #    coincide for some instances only: w(l1) := 1; when b: w(l2) := 2
+    env, tm, em, T, p, o1, o2 = base("conflict-values-from-state-and-coinciding-targets")
+    b = Fluent("b", tm.BoolType(), environment=env)
+    x = Fluent("x", tm.IntType(0, 5), environment=env)
+    y = Fluent("y", tm.IntType(0, 3), environment=env)
+    z = Fluent("z", tm.IntType(0, 3), environment=env)
+    w = Fluent("w", tm.IntType(0, 5), t=T, environment=env)
+    p.add_fluent(b, default_initial_value=True); p.add_fluent(x, default_initial_value=0)
+    p.add_fluent(y, default_initial_value=1); p.add_fluent(z, default_initial_value=2); p.add_fluent(w, default_initial_value=0)
+    a = InstantaneousAction("copy", _env=env)
+    a.add_effect(x, y); a.add_effect(x, z, b)
+    c = InstantaneousAction("two", l1=T, l2=T, _env=env)
+    c.add_effect(w(c.parameter("l1")), 1); c.add_effect(w(c.parameter("l2")), 2, b)
+    inc = InstantaneousAction("incy", _env=env); inc.add_increase_effect(y, 1)
+    for q in (a, c, inc, toggle(env, em, "togb", b)):
+        p.add_action(q)
+    p.add_goal(em.Equals(x, 2))
+    out.append(sx.HandProblem(p, p.name))
+    # 5. a conditional forall assignment whose instances conflict only when both are enabled: forall v. when m(v): r := k(v)
+    env, tm, em, T, p, o1, o2 = base("conflict-forall-conditional-assignment")
+    m = Fluent("m", tm.BoolType(), t=T, environment=env)
+    k = Fluent("k", tm.IntType(0, 4), t=T, environment=env)
+    r = Fluent("r", tm.IntType(0, 4), environment=env)
+    p.add_fluent(m, default_initial_value=True); p.add_fluent(k, default_initial_value=1); p.add_fluent(r, default_initial_value=0)
+    p.set_initial_value(k(o2), 2)
+    v = Variable("v", T, env)
+    a = InstantaneousAction("collect", _env=env)
+    a.add_effect(r, k(v), m(v), forall=(v,))
+    f = InstantaneousAction("flip", l=T, _env=env)
+    f.add_effect(m(f.parameter("l")), em.Not(m(f.parameter("l"))))
+    for q in (a, f):
+        p.add_action(q)
+    p.add_goal(em.Equals(r, 2))
+    out.append(sx.HandProblem(p, p.name))
+    return out
+
+
+def _listed(sim, st):
+    """get_applicable_actions fully consumed, as a set of (action name, argument strings); 'raised:..' on exception."""
+    try:
+        return set((a.name, tuple(str(x) for x in args)) for a, args in sim.get_applicable_actions(st))
+    except Exception as e:  # noqa
+        return "raised:" + type(e).__name__
+
+
+def pair_histories(ctx, ex, stats, max_reports=3):
+    """For every ordered pair (s1, s2) of explored states: a NEW simulator answers get_applicable_actions(s1) (fully
+    consumed) and then get_applicable_actions(s2); the second answer must be the set of instances for which apply succeeds
+    in s2 (the property's own oracle, computed by a simulator that never answered another listing) and must equal the
+    answer of a fresh simulator; is_applicable asked afterwards on the same simulator must agree as well."""
+    from unified_planning.engines.sequential_simulator import UPSequentialSimulator
+    problem = ex.gen.problem
+    insts = ex.gen.ground_instances()
+    states = ex.state_objs[:len(ex.states)]
+    oracle, fresh = [], []
+    for st in states:
+        sim = UPSequentialSimulator(problem)
+        want = set()
+        for a, args in insts:
+            try:
+                if sim.apply(st, a, args) is not None:
+                    want.add((a.name, tuple(str(x) for x in args)))
+            except Exception:  # noqa  (reported by the per-pair oracle; no listing oracle for this state)
+                want = None
+                break
+        oracle.append(want)
+        fresh.append(_listed(UPSequentialSimulator(problem), st))
+    reports = 0
+    for i, s1 in enumerate(states):
+        for j, s2 in enumerate(states):
+            if oracle[j] is None:
+                continue
+            sim = UPSequentialSimulator(problem)
+            first = _listed(sim, s1)
+            got = _listed(sim, s2)
+            stats["history_pairs"] += 1
+            later = {}
+            for a, args in insts:
+                key = (a.name, tuple(str(x) for x in args))
+                try:
+                    later[key] = bool(sim.is_applicable(s2, a, args))
+                except Exception as e:  # noqa
+                    later[key] = "raised:" + type(e).__name__
+            bad_isapp = sorted(str(k) for k, v in later.items() if v != (k in oracle[j]))
+            payload = {"first_state": ex.ser.json_state(ex.states[i]["vals"]), "second_state": ex.ser.json_state(ex.states[j]["vals"]),
+                       "first_answer": sorted(map(str, first)) if isinstance(first, set) else first,
+                       "second_answer": sorted(map(str, got)) if isinstance(got, set) else got,
+                       "apply_succeeds_in_second_state": sorted(map(str, oracle[j])),
+                       "fresh_simulator_answer": sorted(map(str, fresh[j])) if isinstance(fresh[j], set) else fresh[j],
+                       "problem_text": str(problem)}
+            if reports >= max_reports:
+                continue
+            if got != oracle[j]:
+                reports += 1
+                ctx.fail("oracle", "get_applicable_actions(s2) asked after a fully consumed get_applicable_actions(s1) on the same "
+                         "simulator differs from the instances for which apply succeeds in s2 (missing %s, extra %s)" % (
+                             sorted(map(str, oracle[j] - got)) if isinstance(got, set) else got,
+                             sorted(map(str, got - oracle[j])) if isinstance(got, set) else got),
+                         ["c02", "get_applicable_actions", "history"], payload, True)
+            if got != fresh[j]:
+                reports += 1
+                ctx.fail("oracle", "query answer changed under interleaving (get_applicable_actions after get_applicable_actions "
+                         "of another state): fresh %s, later %s" % (payload["fresh_simulator_answer"], payload["second_answer"]),
+                         ["c02", "interleaving", "get_applicable_actions"], payload, True)
+            if bad_isapp:
+                reports += 1
+                ctx.fail("oracle", "is_applicable asked after two get_applicable_actions queries disagrees with apply on %s" % bad_isapp,
+                         ["c02", "interleaving", "isapp"], payload, True)
+            if ex.ser.read_state(s1) != ex.states[i]["vals"] or ex.ser.read_state(s2) != ex.states[j]["vals"]:
+                reports += 1
+                ctx.fail("oracle", "a state passed to get_applicable_actions changed", ["c02", "state-changed"], payload, True)
+
+
+def order_histories(ctx, ex, stats):
+    """Cheap version for every explored problem: ONE new simulator lists the explored states in reverse and then in a
+    random order; every answer must equal the first answer recorded by the explorer (which is compared with apply)."""
+    from unified_planning.engines.sequential_simulator import UPSequentialSimulator
+    n = len(ex.states)
+    if n < 2:
+        return
+    sim = UPSequentialSimulator(ex.gen.problem)
+    order = list(reversed(range(n)))
+    rnd = list(range(n))
+    ctx.rng.shuffle(rnd)
+    for si in order + rnd:
+        srec = ex.states[si]
+        want = srec["applicable"] if srec["applicable"] is not None else None
+        got = _listed(sim, ex.state_objs[si])
+        stats["reordered_listings"] += 1
+        if (got if isinstance(got, set) else None) != want:
+            ctx.fail("oracle", "query answer changed under interleaving (get_applicable_actions asked in another order of states): "
+                     "first %s, later %s" % (None if want is None else sorted(map(str, want)), sorted(map(str, got)) if isinstance(got, set) else got),
+                     ["c02", "interleaving", "get_applicable_actions"],
+                     {"state": ex.ser.json_state(srec["vals"]), "problem_text": str(ex.gen.problem)}, True)
+            break
 
 
 def run(ctx):
@@ -26,11 +227,18 @@ def run(ctx):
         exs = c01.gather(ctx, 35, depth=2, max_states=5, max_inst=60)
     else:
         exs = c01.gather(ctx, 400, depth=4, max_states=12, max_inst=200)
+    # C02's own family: effects that conflict only in some states (explored like the corpus, then all state pairs)
+    family = []
+    for hp in conflict_family():
+        ex = sx.explore_problem(len(exs), ctx.rng, 3 if ctx.quick else 4, 6 if ctx.quick else 12, 40, {}, gen=hp)
+        exs.append(ex)
+        family.append(ex)
     live = [ex for ex in exs if ex.skipped is None]
     pre = c01.preamble(live)
     cases, owners = [], []
     stats = {"problems": len(exs), "pairs": 0, "applicable": 0, "states": 0, "interleaved_queries": 0,
-             "applicable_sets_checked": 0, "goal_queries": 0}
+             "applicable_sets_checked": 0, "goal_queries": 0, "history_pairs": 0, "reordered_listings": 0,
+             "state_dependent_conflict_instances": 0}
     nontrivial = set()
     for ex in live:
         insts = ex.gen.ground_instances()
@@ -69,6 +277,14 @@ def run(ctx):
                              ["c02", "get_applicable_actions"],
                              {"state": ex.ser.json_state(srec["vals"]), "extra": sorted(map(str, srec["applicable"] - want)),
                               "missing": sorted(map(str, want - srec["applicable"])), "problem_text": str(ex.gen.problem)}, True)
+        # listing histories: all ordered state pairs on a new simulator (conflict family), reordered listings (all)
+        if ex in family:
+            verdicts = {}
+            for rec in ex.pairs:
+                verdicts.setdefault((rec["action"].name, tuple(map(str, rec["args"]))), set()).add(rec["apply"] is not None)
+            stats["state_dependent_conflict_instances"] += sum(1 for v in verdicts.values() if len(v) == 2)
+            pair_histories(ctx, ex, stats)
+        order_histories(ctx, ex, stats)
         # query interleavings on the SAME simulator instance, against a fresh instance per query
         nq = 12 if ctx.quick else 60
         for _ in range(nq):
@@ -108,9 +324,9 @@ def run(ctx):
     if not ok_proofs:
         ctx.proof_broken()
     ctx.finish({
-        "evaluations": len(cases) + stats["states"] + stats["interleaved_queries"],
+        "evaluations": len(cases) + stats["states"] + stats["interleaved_queries"] + stats["history_pairs"] + stats["reordered_listings"],
         "distinct_nontrivial": len(nontrivial),
-        "rule": "C01 exploration with ALL ground instances per reachable state; non-trivial = applicable or is_applicable False; plus goal queries, applicable-action sets and random query interleavings on one simulator instance",
+        "rule": "C01 exploration with ALL ground instances per reachable state; non-trivial = applicable or is_applicable False; plus goal queries, applicable-action sets, random query interleavings on one simulator instance, get_applicable_actions asked on every ordered pair of states of the state-dependent-conflict family and in permuted state orders on every problem",
         "samples": [sx.pair_json(ex, rec) for (ex, rec) in owners[:3]],
         "distribution": stats,
         "traces_validated_against_impl": len(cases),
